@@ -22,7 +22,7 @@ from ..anf import Rat, sym
 from ..guards import (G, TRUE, FALSE, g_and, g_not, g_or, g_equiv, g_implies, g_sat, compare, canon_sign, OPS)
 from ..gvn import Frame, Obj, PW, Vec, cases_of, veq, mk_pw, Unsupported
 from ..intervals import single_atom
-from ..seqdom import Gen, flatten, seq_equiv, var_symbol, mk_gen
+from ..seqdom import Gen, flatten, seq_equiv, var_symbol, mk_gen, unit_step
 from .common import RuleCtx, _short
 
 C = Rat.const
@@ -89,7 +89,7 @@ def _segments_of(items, what: str):
             raise AnalysisError(f"{what}: an inserted-point block is not a summarised loop - shape not recognised ({_short(it, 80)})")
         if len(it.parts) == 1 and it.parts[0][2] and isinstance(it.parts[0][1], Vec) and len(it.parts[0][1].items) == 1 \
                 and isinstance(it.parts[0][1].items[0], Gen) and it.parts[0][1].items[0].ranged:
-            inner = it.parts[0][1].items[0]
+            inner = unit_step(it.parts[0][1].items[0])
             if len(inner.parts) != 1 or inner.parts[0][2]:
                 raise AnalysisError(f"{what}: inner insertion loop emits {len(inner.parts)} values per step - shape not recognised")
             out.append(((it.lo, it.hi, it.step), g_and(it.parts[0][0], inner.parts[0][0]), inner))
